@@ -79,7 +79,8 @@ def rand_str(rng, length, zero=48, one=49, p_one=0.5):
 def single_ops(bits, w, full):
     """every single operation applicable to one value (valid and invalid positions)"""
     ops = ["sa", "ra", "fa", "not", "sw"]
-    allpos = list(range(bits)) + bad_positions(bits, w)
+    top = nwords(bits, w) * w
+    allpos = list(range(bits)) + sorted({bits, top - 1, top, bits + 64} - set(range(bits)))
     for p in allpos:
         ops += [f"s {p} 0", f"s {p} 1", f"r {p}", f"f {p}", f"rs {p} 0", f"rs {p} 1", f"rf {p}", f"t {p}"]
     return ops
@@ -196,7 +197,7 @@ def gen(tier, rng):
     for bits in SMALL:
         for kind, w in KINDS:
             ops1 = single_ops(bits, w, kind == "bs")
-            stride = 1 if (quick is False or kind == "bs" or w == 8 or bits <= 7) else 3
+            stride = 1 if (quick is False or kind == "bs" or w == 8) else 5
             for v in range(0, 2**bits, stride):
                 ops = []
                 for o in ops1:
@@ -212,17 +213,20 @@ def gen(tier, rng):
     # --- B. width 7 (and 1): every pair of values under the binary operations
     for bits in (1, 7):
         for kind, w in KINDS:
-            full = kind == "bs" or w == 8 or not quick
+            full = kind == "bs" or not quick
             for a in range(2**bits):
                 bs = range(2**bits) if full else [rng.randrange(2**bits) for _ in range(6)]
                 for b in bs:
                     ops = ["int %d" % b, "sw"]
-                    for o in ("and", "or", "xor", "andf", "orf", "xorf"):
+                    free = (not quick) or not full or (a + b) % 8 == 0
+                    for o in ("and", "or", "xor") + (("andf", "orf", "xorf") if free else ()):
                         ops += ["int %d" % a, o]
                     out.append(hist(kind, w, bits, ops))
     # --- C. all widths: random histories (+ raw storage twins)
-    nh = {"quick": 120, "search": 400}.get(tier, 3000)
     for bits in WIDTHS:
+        # the extracted model costs ~5 us per bit and step (unary positions): fewer, not shorter, histories
+        # at the large widths in the quick tier
+        nh = {"quick": 150 if bits <= 9 else (70 if bits <= 33 else (36 if bits <= 65 else 24)), "search": 300}.get(tier, 2500)
         for kind, w in KINDS:
             for k in range(nh):
                 ops = random_history(rng, kind, w, bits, rng.randint(8, 24))
